@@ -55,7 +55,7 @@ fn classify(v: &RefValue, oc: &OptCase) -> (bool, Vec<&'static str>) {
 
 pub fn run(ctx: &mut Ctx) {
 	if ctx.wants("G_values_x_options") {
-		let n = ctx.pick(100_000, 2_000_000);
+		let n = ctx.pick(300_000, 2_000_000);
 		let fam = Fam::new("G_values_x_options", "proptest: random value x random option record (3 presets; custom: every numeric field 0..=3, Spaces(0..=4)/Tabs(0..=2), every Limit variant); printed text accepted by the reference automaton, denotes the original tree, re-parses to an equal value, and minus insignificant whitespace equals the compact form; non-trivial = container with a string needing escapes or a fraction/exponent number under a custom record", false);
 		let fam = run_proptest(
 			ctx,
